@@ -190,6 +190,13 @@ class HistoryProperty(Property):
                     m = copy.deepcopy(n)
                     del m[key][i]
                     yield m
+        elif k == "dsclass":
+            for part in ("fields", "plain", "mixin"):
+                for i in range(len(n[part])):
+                    if sum(len(n[q]) for q in ("fields", "plain", "mixin")) > 1:
+                        m = copy.deepcopy(n)
+                        del m[part][i]
+                        yield m
         elif k == "map":
             for key in list(n["iterables"]):
                 if len(n["iterables"]) > 1:
